@@ -25,6 +25,7 @@ const (
 	symKel  // "K" U+212A KELVIN SIGN (folds to k / K)
 	symLngS // "ſ" U+017F LONG S (folds to s / S)
 	symFold // case folding occurs: add the fold variants of the letters above
+	symUpB  // "B": an upper-case ASCII letter inside a case-sensitive literal
 )
 
 type atom struct {
@@ -39,6 +40,7 @@ var atoms = []atom{
 	{"ab", symA | symB, false},
 	{"abc", symA | symB | symC, false},
 	{"bc", symB | symC, false},
+	{"Bc", symUpB | symB | symC, false}, // case-sensitive literal with a capital: next to (?i) parts the prefilter works case-insensitively
 	{"K", symKel, true},
 	{"ſ", symLngS, true},
 	{".", symNL | symFF, true},
